@@ -152,6 +152,16 @@ CLAIMED = {
         "Theorems: a function wrapped in CWRAPPER_BEGIN/END never lets an exception out, for any table, core behaviour and call sequence; on the current table every function is protected or in an explicit justified list (decided by computation), with a refutation for lambda_real_double_visitor_init; each forwarder returns the C++ API value of the expected callee on the expected argument order or an error code with the state untouched (153 functions); vector/set/map container laws; state invariant after any history; Expression operators agree with core calls. Matrix/MPFR/LLVM/cse/solve wrappers are covered by the static table theorems only.",
         "Trusted: Coq kernel (vm_compute on the generated table); the translator (a changed body changes the table/fingerprint and breaks an obligation); extraction; known findings (listed): setbasic_get out of range, exceptions escaping lambda_real_double_visitor_init and basic_set_is_*subset/superset.",
         "7 (C42)"),
+    "C14": (
+        "Rocq proof over a rule table REGENERATED from llvm_double.cpp on every run (translators/tr_llvmrules.py) and an SSA compilation model (flatten, symbolic CSE, emission order) + correspondence of init/call histories on one LLVMDoubleVisitor at opt levels 0-3, CSE on/off, against the extracted model and against LambdaRealDoubleVisitor",
+        "Unbounded theorems: compile_sound (for every float algebra, running the emitted SSA program on an input vector gives the value of the output trees; each CSE replacement is computed once and shared), flatten_correct (emission-order invariant), every one of the 60 accepted classes compiles to the same rule as the interpreter tables (agree_eval, accepts), the five Pow cases with their operand order are the real power, init is stateless and CSE symbols take precedence (obligations over regenerated flags). Partial: LLVM's optimiser, instruction selection, JIT and object-file round trip are outside any theorem - results are compared bit for bit (<= 16 ulp allowed for LLVM's constant folding of powi/libm calls at opt levels 1-3); the Float and LongDouble visitors are exercised, not judged.",
+        "Trusted: Coq kernel; standard-library real-number axioms (classic, functional extensionality, the two ClassicalDedekindReals axioms) for llvm_pow_ideal only; the translator; extraction; LLVM 14 itself.",
+        "7 (C14)"),
+    "C45": (
+        "Rocq proof over rule/arith tables REGENERATED from eval_mpfr.cpp and real_mpfr.cpp on every run (translators/tr_mpfrrules.py) and a Flocq model of MPFR round-to-nearest at any precision (FLX format) + digit-for-digit correspondence of eval_mpfr/evalf runs at precisions 1-1000 bits and of Number arithmetic with one RealMPFR operand on the WITH_MPFR build",
+        "MPFR half only (libmpc headers are absent in this image: eval_mpc/ComplexMPC are not built, not modelled, not tested). Unbounded theorems: every specified class of the generated eval_mpfr table is its mathematical function over the reals (37 classes, Pow, constants, Add/Mul/Max/Min folds); class by class it is the same rule as the double evaluator (46 classes); the model's rounding is Flocq's round radix2 (FLX_exp p) ZnearestE; for the 22 arithmetic overloads listed the result precision is the maximum of the operand precisions and the value is the exact result rounded once; 7 overloads round twice and reverse division by an exact number is refuted with a concrete witness (known finding). Partial: the accuracy of MPFR's transcendental functions is taken from MPFR (the driver evaluates candidates with MPFR; formula selection and operand order are compared digit for digit); the accuracy oracle (2p+64-bit reference with a conditioning estimate) is testing.",
+        "Trusted: Coq kernel; standard-library real-number axioms via Flocq/Reals; the translator; extraction; MPFR itself (correct rounding of each call); known findings (listed): reverse division and powers that round an exact operand first.",
+        "7 (C45)"),
     "C40": (
         "Rocq proof over an executable heap state-machine model of the intrusive reference-counting protocol (symengine_rcp.h: make_rcp, copy/move/assign/reset/destructor, rcp_from_this, Add::from_dict dictionary stealing) + lock-step correspondence of generated handle programs against the library with the live-object counter hook, plus sanitizer replay (testing, labelled)",
         "Unbounded theorems for every handle program from any set of library constants: no step reads or writes the counter of a freed object or decrements a zero counter (rcp_no_uaf), every counter equals the number of handles to the object (wf), an object is alive iff reachable from a handle (live_iff_reachable), after dropping all handles exactly the pre-existing constants remain (rcp_no_leak, baseline), held expressions are immutable, stealing a Mul's dictionary at use_count()==1 is unobservable (steal_safe) and threshold 2 is refuted; a cycle leaks (why acyclicity is needed). Tied after EVERY step: live-object count (hook H2), every use_count() and slot contents equal the model's prediction. Memory safety of whole API workloads (out-of-bounds, uninitialised reads) is outside the model: it is tested under ASan/UBSan/LSan, labelled testing.",
